@@ -46,22 +46,32 @@ func (s *c18Secrets) assertNoResponseLeak(resp any, where string) {
 	}
 }
 
-// c18Request: a create request carrying every credential field of its target kind.
-func c18Request(sec *c18Secrets) *request.CreateRequest {
+// c18Request: a create request carrying every credential field of its target kind. The
+// connect parameters are sent as a generic nested object whose credential keys use one of
+// the spellings the decoder accepts (it matches keys case-insensitively).
+func c18Request(sec *c18Secrets) (*request.CreateRequest, map[string]any) {
 	req := &request.CreateRequest{CollectionInfos: []model.CollectionInfo{{Name: "a"}}}
+	spell := func(k string) string {
+		switch vChoice("keySpelling", 3) {
+		case 1:
+			return strings.ToUpper(k[:1]) + k[1:]
+		case 2:
+			return strings.ToUpper(k)
+		}
+		return k
+	}
+	raw := map[string]any{}
 	switch vChoice("target", 3) {
 	case 0: // milvus, user + password
-		req.MilvusConnectParam = model.MilvusConnectParam{URI: c18T1, Username: "root", Password: sec.add("milvus-password")}
+		raw["milvus_connect_param"] = map[string]any{"uri": c18T1, "username": "root", spell("password"): sec.add("milvus-password")}
 	case 1: // milvus, token
-		req.MilvusConnectParam = model.MilvusConnectParam{URI: c18T1, Token: sec.add("milvus-token")}
+		raw["milvus_connect_param"] = map[string]any{"uri": c18T1, spell("token"): sec.add("milvus-token")}
 	case 2: // kafka with SASL
-		req.KafkaConnectParam = model.KafkaConnectParam{Address: "k:9092", Topic: "t", EnableSASL: true,
-			SASL: model.KafkaSASL{Username: sec.add("sasl-username"), Password: sec.add("sasl-password"), Mechanisms: "PLAIN"}}
+		raw["kafka_connect_param"] = map[string]any{"address": "k:9092", "topic": "t", "enable_sasl": true,
+			"sasl": map[string]any{spell("username"): sec.add("sasl-username"), spell("password"): sec.add("sasl-password"), "mechanisms": "PLAIN"}}
 	}
-	return req
+	return req, raw
 }
-
-
 
 // VerifC18_Create: a create request with credentials, a failure injected at one step of
 // create / start (or none), then get, list, pause and a reload by a restarted server.
@@ -69,7 +79,7 @@ func VerifC18_Create() {
 	w := sNewWorld()
 	srv := &CDCServer{api: w.cdc, serverConfig: w.cdc.config}
 	sec := &c18Secrets{}
-	req := c18Request(sec)
+	req, raw := c18Request(sec)
 	switch vChoice("failure", 9) {
 	case 0: // none
 	case 1: // rejected by the validation
@@ -90,7 +100,7 @@ func VerifC18_Create() {
 		w.chReaderFails = true
 	}
 	vLogMark()
-	isErr, _, resp := c18Do(srv, request.Create, req)
+	isErr, _, resp := c18DoRaw(srv, request.Create, req, raw)
 	w.f.faults = false
 	sec.assertNoLogLeak("create")
 	sec.assertNoResponseLeak(resp, "create")
